@@ -687,16 +687,34 @@ func genSync(r *hx.Rng) string {
 		}
 		mainS = showUtxoSpec(m)
 	}
+	deps, mfs := refs(2), refs(1)
+	if r.Chance(1, 2) {
+		deps, mfs = "-", "-"
+	}
+	if mainS == "nil" && nt > 0 && r.Chance(1, 6) {
+		// the wallet's first sweep is still in the mempool: nothing (or only spam at other
+		// output indices) confirmed, the sweep's first input spends a deposit / moved funds
+		// sweep request whose output index may be >= 1
+		tid := uint64(r.Range(1, nt))
+		var in ref
+		fmt.Sscanf(strings.SplitN(txs[tid-1], "/", 2)[1], "%d.%d", &in.h, &in.i)
+		conf = nil
+		if r.Chance(1, 3) {
+			conf = append(conf, utxoSpec{tid, uint32(r.Range(1, 2)), 546})
+		}
+		memp = []utxoSpec{{tid, 0, 5000}}
+		if r.Chance(1, 2) {
+			deps, mfs = showRef(in), "-"
+		} else {
+			deps, mfs = "-", showRef(in)
+		}
+	}
 	cs, ms := joinUtxos(conf), joinUtxos(memp)
 	if r.Chance(1, 25) {
 		cs = "E"
 	}
 	if r.Chance(1, 25) {
 		ms = "E"
-	}
-	deps, mfs := refs(2), refs(1)
-	if r.Chance(1, 2) {
-		deps, mfs = "-", "-"
 	}
 	derr, merr := "-", "-"
 	if r.Chance(1, 6) {
